@@ -362,6 +362,9 @@ func errHead(err error) string {
 	}
 	tag := -1
 	var ps []string
+	if len(ze.Issues) == 1 && ze.Issues[0].Code == core.InvalidType && msgRe.FindStringSubmatch(ze.Issues[0].Message) == nil {
+		return "err 999999:0" // the type dispatch of a stage rejected its input (lean: typeErrTag)
+	}
 	for _, is := range ze.Issues {
 		mm := msgRe.FindStringSubmatch(is.Message)
 		if mm == nil {
